@@ -206,3 +206,22 @@ def run(chk, repo):
                 ok = 'len(' in t and ('<len' in t)
                 chk.ob('C16.e', f"{nm}: forward search runs up to the last exon ('{unparse(w.test)}')", repo.loc(f, w), ok,
                        f"forward search bound '{unparse(w.test)}'", key=f"{f.qual}::forward-bound", fn=f.qual)
+
+    # ------------------------------------------------------------------ f
+    chk.rule('C16.f', 'has_junction visits every consecutive exon pair', 1)
+    hj = repo.func('gtf.TranscriptAnnotationModel:TranscriptAnnotationModel.has_junction')
+    chk.uses(hj)
+    lp = [l for l in walk_no_nested(hj.node) if isinstance(l, ast.For)]
+    ok = False
+    detail = 'loop not found'
+    if len(lp) == 1:
+        it = unparse(lp[0].iter)
+        body = unparse(lp[0])
+        idiom_enum = it == 'enumerate(self.exon)' and 'if exon1 is self.exon[-1]:\n        break' in body and 'exon2 = self.exon[i + 1]' in body
+        idiom_zip = it in ('zip(self.exon[:-1], self.exon[1:])', 'zip(self.exon, self.exon[1:])')
+        idiom_range = it == 'range(len(self.exon) - 1)'
+        ok = idiom_enum or idiom_zip or idiom_range
+        detail = f"loop over '{it}'"
+    chk.ob('C16.f', 'pair loop is one of the complete idioms (enumerate+last-break / zip(e[:-1], e[1:]) / range(len-1))', hj.where, ok,
+           f"{detail}: not a recognised complete pair iteration - the last intron can be skipped, so an annotated junction looks novel and records are emitted for annotated forms",
+           key=hj.qual + '::all-pairs', fn=hj.qual)
